@@ -976,16 +976,16 @@ KNOWN_PREDICATES = {
 
 
 SUBCHECKS = [
-    SubCheck('subsets', lambda: TABLE, run_subsets, quick=1000, thorough=4380),
-    SubCheck('mdv_evid', lambda: TABLE, run_mdv_evid, quick=1000, thorough=4380),
-    SubCheck('doseid', lambda: TABLE, run_doseid, quick=2000, thorough=8760),
-    SubCheck('tad', lambda: TABLE, run_tad, quick=2000, thorough=8760),
-    SubCheck('tad_frame', lambda: TABLE, run_tad_frame, quick=1000, thorough=4380),
-    SubCheck('expand', lambda: TABLE, run_expand, quick=1600, thorough=7010),
-    SubCheck('expand_frame', lambda: TABLE, run_expand_frame, quick=640, thorough=2800),
-    SubCheck('cmt_admid', lambda: TABLE, run_cmt_admid, quick=1600, thorough=7010),
-    SubCheck('add_cmt_admid', lambda: TABLE, run_add_cmt_admid, quick=640, thorough=2800),
-    SubCheck('baselines', lambda: TABLE, run_baselines, quick=900, thorough=3940),
+    SubCheck('subsets', lambda: TABLE, run_subsets, quick=1000, thorough=8760),
+    SubCheck('mdv_evid', lambda: TABLE, run_mdv_evid, quick=1000, thorough=8760),
+    SubCheck('doseid', lambda: TABLE, run_doseid, quick=2000, thorough=17520),
+    SubCheck('tad', lambda: TABLE, run_tad, quick=2000, thorough=17520),
+    SubCheck('tad_frame', lambda: TABLE, run_tad_frame, quick=1000, thorough=8760),
+    SubCheck('expand', lambda: TABLE, run_expand, quick=1600, thorough=14020),
+    SubCheck('expand_frame', lambda: TABLE, run_expand_frame, quick=640, thorough=5600),
+    SubCheck('cmt_admid', lambda: TABLE, run_cmt_admid, quick=1600, thorough=14020),
+    SubCheck('add_cmt_admid', lambda: TABLE, run_add_cmt_admid, quick=640, thorough=5600),
+    SubCheck('baselines', lambda: TABLE, run_baselines, quick=900, thorough=7880),
 ]
 
 
